@@ -5,7 +5,7 @@
 (*                                                                         *)
 (* A trace file is the concatenation of several histories; each starts     *)
 (* with a "reset" line carrying the global settings.  Every other line is  *)
-(* one operation (add / upd / rem / lease) with the reply class the real   *)
+(* one operation (load / add / upd / rem / lease) with the reply the real  *)
 (* code gave and a few lookups made right after it.  The registry `reg`    *)
 (* and the lease table are advanced with the SAME AddRes / UpdateRes /     *)
 (* RemoveRes operators the exhaustive model uses; the lookups are answered *)
@@ -13,7 +13,8 @@
 (* differ is recorded in `bad`; after a wrong REPLY the rest of that       *)
 (* history is skipped (the real state is no longer the spec's).            *)
 (*                                                                         *)
-(* Address width here is W = 8 (cfg).                                      *)
+(* Address width here is W = 8 (cfg); address numbers above 255 carry an   *)
+(* IPv6 zone (ClientsCore!Bits / Zone).                                    *)
 (***************************************************************************)
 EXTENDS ClientsCore, Sequences, SequencesExt, TLC, Json
 
@@ -51,6 +52,8 @@ Res(ln) ==
     CASE ln.op = "add" -> AddRes(reg, Cl(ln.c))
       [] ln.op = "upd" -> UpdateRes(reg, ln.n, Cl(ln.c))
       [] ln.op = "rem" -> RemoveRes(reg, ln.n)
+      \* start-up from a configuration file (first line after a reset)
+      [] ln.op = "load" -> LoadRes([i \in DOMAIN ln.cs |-> Cl(ln.cs[i])])
 
 Init == /\ l = 1 /\ reg = {} /\ leases = <<>> /\ glob = [vals |-> <<>>, svcs |-> {}]
         /\ bad = {} /\ skipping = FALSE /\ skipped = 0
